@@ -11,6 +11,7 @@ CONSTANTS Names,      \* sequence of names of the pool, e.g. <<"a","b">>
           DstrF,      \* subset of {"obj","objdef","objkey","arr"}
           RefF,       \* subset of the ref forms (inside a function, block, catch or for)
           TopRefF,    \* subset of the ref forms (at file scope)
+          TopDecl,    \* TRUE: decl / dstr items are generated at file scope too
           FnF,        \* subset of {"decl","iife","arrow"}
           Defaults,   \* TRUE: parameters may have a default naming another pool name
           NoParam,    \* TRUE: functions without parameter are generated too
@@ -24,8 +25,9 @@ vars == <<p, st>>
 NameSet == {Names[x] : x \in 1..Len(Names)}
 
 Candidates ==
-     {Item("decl", f, n, "-", "-") : f \in DeclF, n \in NameSet}
-  \cup {Item("dstr", f, n, "-", "-") : f \in DstrF, n \in NameSet}
+     (IF st # <<>> \/ TopDecl THEN {Item("decl", f, n, "-", "-") : f \in DeclF, n \in NameSet}
+                                   \cup {Item("dstr", f, n, "-", "-") : f \in DstrF, n \in NameSet}
+      ELSE {})
   \cup {Item("ref", f, n, "-", "-") : f \in (IF st = <<>> THEN TopRefF ELSE RefF), n \in NameSet}
   \cup {Item("fn", f, n, "-", IF f = "decl" THEN g ELSE "-") : f \in FnF, n \in NameSet, g \in NameSet \cup {"f"}}
   \cup (IF NoParam THEN {Item("fn", f, "-", "-", IF f = "decl" THEN g ELSE "-") : f \in FnF, g \in NameSet \cup {"f"}} ELSE {})
